@@ -67,7 +67,12 @@ class NixExpression:
         """Copy nodes to enable immutable-style edits during transforms."""
         if not update:
             return copy(self)
-        return replace(self, **update)
+        copied = replace(self, **update)
+        if copied.scope is self.scope:
+            # replace() re-runs __post_init__, which re-homes the shared Scope
+            # onto the copy; copying (e.g. while rendering) must not alter self.
+            self.scope.owner = self
+        return copied
 
     @classmethod
     def _fast_construct(cls, **values: Any) -> Self:
